@@ -20,7 +20,7 @@ RULE = (
     'Generated small workflow with 0-2 execution/submission retries per task '
     'and outcome sequences of 1-3 submissions; schedules of 20-70 steps over '
     'loop / return / advance / deliver / deliver-newest-first / duplicate / '
-    'user poll (messages are delayed, duplicated, re-ordered, and poll '
+    're-deliver one of the last 6 delivered messages / user poll (messages are delayed, duplicated, re-ordered, and poll '
     'results are returned late; nothing is lost), then a fair drain.  A '
     'monitor around TaskEventsManager.process_message records (message, flag, '
     'message submit number, task state and outputs before/after, return '
@@ -65,7 +65,8 @@ def cases(draw):
                         ['failed', 'failed', 'submit-fail', None]))}
                     for _ in range(draw(st.integers(1, 3)))]
     sched = draw(schedules(70, ops=('loop', 'loop', 'ret', 'adv', 'adv',
-                                    'del', 'delr', 'delr', 'dup', 'poll'),
+                                    'del', 'delr', 'delr', 'dup', 'redel',
+                                    'redel', 'poll'),
                            min_len=20))
     delays = draw(st.lists(st.sampled_from([0, 0, 0, 1, 2, 3, 6, 12]),
                            min_size=1, max_size=12))
@@ -149,6 +150,50 @@ async def _check(case, ctx: Ctx) -> CaseResult:
                             f'iteration {ev["it"]} (queued: {polled})'))
             elif ev['before'] == ev['after']:
                 classes.add('duplicate-no-effect')
+        # every message put on the scheduler's queue while its task was in
+        # the pool (and stayed there through the next iteration, when the
+        # queue is processed) must have been handed to process_message
+        heard = set()
+        removed_at = {}
+        added_at = {}
+        for ev in sim.trace:
+            if ev['k'] == 'pm' and ev['flag'] == '(received)':
+                heard.add((ev['cycle'], ev['name'], ev['msg'],
+                           ev['msg_submit_num']))
+            elif ev['k'] == 'remove':
+                removed_at.setdefault((ev['cycle'], ev['name']), []).append(
+                    (ev['inc'], ev['it']))
+            elif ev['k'] == 'add':
+                added_at.setdefault((ev['cycle'], ev['name']), []).append(
+                    (ev['inc'], ev['it']))
+        for ev in sim.trace:
+            if ev['k'] != 'deliver':
+                continue
+            cyc, name, nn = ev['job'].split('/')
+            if (cyc, name, ev['msg'], int(nn)) in heard:
+                continue
+            # only instances that were added once and never removed (before
+            # the end of the run) are judged: no doubt about pool membership
+            if removed_at.get((cyc, name)) or len(
+                    added_at.get((cyc, name), [])) > 1:
+                continue
+            if sim.running:
+                last_pool = sim.pool_snapshot()
+            else:
+                last_pool = next((e['pool'] for e in reversed(sim.trace)
+                                  if e['k'] == 'shutdown'), [])
+            if not any((t['cycle'], t['name']) == (cyc, name)
+                       for t in last_pool):
+                continue
+            # a full main-loop iteration must have followed the delivery
+            if not any(e['k'] == 'iter-end' and e['inc'] == ev['inc']
+                       and e['it'] > ev['it'] + 1 for e in sim.trace):
+                continue
+            viol.append(Violation(
+                'C10:delivered-message-never-processed',
+                f'{ev["job"]}: message "{ev["msg"]}" was put on the message '
+                f'queue at iteration {ev["it"]} while {cyc}/{name} was in '
+                f'the pool, but process_message never saw it'))
         # final state == latest job's outcome
         if sc.shut or sc.quiescent:
             final = {}
